@@ -190,6 +190,14 @@ def pystrip(s):
     return s.strip()
 
 
+def isdigits(s):
+    return len(s) > 0 and all(c in '0123456789' for c in s)
+
+
+def str2int(s):
+    return int(s) if isdigits(s) else -1
+
+
 BASE_NS = dict(
     pow2=pow2, pow10=lambda n: 10 ** n, rpos=rpos, rlen=rlen, rbits=rbits, wlen=wlen, wbits=wbits, U=U, Bst=Bst, Bin=Bin,
     prefix_same=prefix_same, outside_same=outside_same, chars_eq=chars_eq, substr=substr, allspaces=allspaces,
@@ -197,7 +205,7 @@ BASE_NS = dict(
     is_byt=is_byt, is_txt=is_txt, ival=ident, bval=ident, tval=ident, fval=ident, oval=ident, typeis=typeis,
     isinst=isinst, str_prefixof=str_prefixof, str_suffixof=str_suffixof, str_contains=str_contains,
     str_indexof=str_indexof, str_at=str_at, strlen=len, isintlit=isintlit, intlit=intlit, int2str=int2str,
-    zpad=zpad, allws=allws, wsonly=allws, pystrip=pystrip, fresh=lambda x: True, isfresh=lambda x: True,
+    zpad=zpad, isdigits=isdigits, str2int=str2int, allws=allws, wsonly=allws, pystrip=pystrip, fresh=lambda x: True, isfresh=lambda x: True,
     Eq=lambda a, b: a == b, vnone=lambda: None, vint=ident, val_eq=lambda a, b: a == b and type(a) is type(b),
     joined=lambda l: ''.join(l), sumof=sum, haskey=lambda d, k: k in d, dsize=len, select=lambda l, i: l[i],
     abs=abs, len=len, min=min, max=max, int=int, str=str, bool=bool, isinstance=isinstance, type=type,
